@@ -13,4 +13,4 @@ def run(tier, seed, replay):
     return c10.run_foreign('C11', tier, seed, ('read', 'api', 'reopen', 'valid', 'open'), n,
                            'Discard-heavy histories over all cluster kinds; FlatDisk rule of the property; validb on flushed files; reopen sweep.',
                            mix={'W': 25, 'R': 25, 'D': 35, 'F': 8, 'K': 3, 'S': 2, 'N': 2},
-                           plain_n=(60 if tier == 'quick' else 600), level='proof', gate=gate, sim_n=(40 if tier == 'quick' else 400))
+                           plain_n=(60 if tier == 'quick' else 600), level='proof', gate=gate, sim_n=(40 if tier == 'quick' else 400), allow_v2=True)
